@@ -39,4 +39,4 @@ def run(tier, seed):
 
 
 def replay(path):
-    return V.replay(PROP, COMPS, path)
+    return V.replay(PROP, COMPS, path, SPEC)
